@@ -21,9 +21,10 @@ import (
 // monitors: race detector (driver parses the GORACE logs), crash sentinel (child process), tree consistency.
 
 type vfHamActor struct {
-	depth    int
-	decision vivid.SupervisionDecision
-	count    atomic.Int64
+	depth     int
+	decision  vivid.SupervisionDecision
+	count     atomic.Int64
+	subscribe bool
 }
 
 type vfHamMsg struct {
@@ -32,6 +33,11 @@ type vfHamMsg struct {
 
 func (a *vfHamActor) OnReceive(ctx vivid.ActorContext) {
 	switch m := ctx.Message().(type) {
+	case *vivid.OnLaunch:
+		if a.subscribe {
+			ctx.EventStream().Subscribe(ctx, vfStreamEv0{})
+			ctx.EventStream().Subscribe(ctx, vfStreamEv1{})
+		}
 	case *vfHamMsg:
 		a.count.Add(1)
 		switch m.Op {
@@ -105,7 +111,7 @@ func vfHamTree(sys *System) (registered, unreachable, unlisted []string) {
 	return
 }
 
-func vfHammerBatch(R *verifrt.Report, ci int, seed uint64, workers int, dur time.Duration) {
+func vfHammerBatch(R *verifrt.Report, ci int, seed uint64, workers int, dur time.Duration, focus string) {
 	sys := NewSystem(vivid.WithActorSystemLogger(log.NewSilentLogger()))
 	if err := sys.Start(); err != nil {
 		R.Violate(ci, "c10-start-error", "Start", err.Error(), nil)
@@ -142,9 +148,25 @@ func vfHammerBatch(R *verifrt.Report, ci int, seed uint64, workers int, dur time
 			for !stop.Load() {
 				r := pick(rng)
 				op := rng.Intn(100)
+				if focus == "eventstream" && r != nil {
+					// event-stream focus: the same few event types are published, subscribed and unsubscribed from all workers at
+					// once, and short-lived actors subscribe on launch and die (UnsubscribeAll at termination)
+					switch f := rng.Intn(100); {
+					case f < 4:
+						op = 0 // ActorOf
+					case f < 8:
+						op = 60 // Kill
+					case f < 38:
+						op = 70 // Subscribe
+					case f < 62:
+						op = 80 // Unsubscribe / UnsubscribeAll
+					default:
+						op = 90 // Publish
+					}
+				}
 				switch {
 				case op < 12 || r == nil:
-					a := &vfHamActor{depth: 0, decision: vfAllDecisions[rng.Intn(5)]}
+					a := &vfHamActor{depth: 0, decision: vfAllDecisions[rng.Intn(5)], subscribe: focus == "eventstream"}
 					if ref, err := sys.ActorOf(a, vfHamOptions(a)...); err == nil {
 						addRef(ref)
 					}
@@ -306,8 +328,11 @@ func vfClipStr(s []string, n int) []string {
 	return s
 }
 
-func TestVerif_hammer(t *testing.T) {
-	R := verifrt.NewReport("hammer", "real-time batches under the race detector: 8-64 goroutines call only what is documented as concurrency-safe (ActorSystem.ActorOf/Tell/Ask/Kill/FindActor, EventStream Subscribe/Unsubscribe/UnsubscribeAll/Publish with the system's stream, every Future method, ActorRef methods on shared refs, ParseRef) for 1.5-4 s while the actors spawn children from their own handlers (depth <= 3), panic / Failed under all five non-escalating decisions with one-for-one and one-for-all strategies, and kill themselves; one child process per batch. Monitors: race reports with a vivid frame (parsed by the driver), process-fatal errors, registry == set reachable from the root through children tables in 3 consecutive samples after the callers stopped, Stop returns. non-trivial+distinct = batches (each a different PRNG stream and worker count)")
+func TestVerif_hammer(t *testing.T)     { vfHammer(t, "hammer") }
+func TestVerif_hammerfast(t *testing.T) { vfHammer(t, "hammerfast") }
+
+func vfHammer(t *testing.T, check string) {
+	R := verifrt.NewReport(check, "(hammer: under the race detector; hammerfast: the same batches without it, i.e. at full speed, where the runtime's own concurrent-map checks and crashes are the monitor) real-time batches under the race detector: 8-64 goroutines call only what is documented as concurrency-safe (ActorSystem.ActorOf/Tell/Ask/Kill/FindActor, EventStream Subscribe/Unsubscribe/UnsubscribeAll/Publish with the system's stream, every Future method, ActorRef methods on shared refs, ParseRef) for 1.5-4 s while the actors spawn children from their own handlers (depth <= 3), panic / Failed under all five non-escalating decisions with one-for-one and one-for-all strategies, and kill themselves; one child process per batch. Monitors: race reports with a vivid frame (parsed by the driver), process-fatal errors, registry == set reachable from the root through children tables in 3 consecutive samples after the callers stopped, Stop returns. non-trivial+distinct = batches (each a different PRNG stream and worker count)")
 	defer R.Flush()
 	n := verifrt.EnvInt("VERIF_N", 4)
 	dur := 2 * time.Second
@@ -319,10 +344,11 @@ func TestVerif_hammer(t *testing.T) {
 		if !verifrt.Mine(ci) || (only >= 0 && only != ci) {
 			continue
 		}
-		seed := verifrt.CaseSeed("hammer", ci)
+		seed := verifrt.CaseSeed(check, ci)
 		workers := []int{8, 16, 32, 64}[ci%4]
-		R.Journal(ci, fmt.Sprintf("batch workers=%d dur=%v", workers, dur))
-		vfHammerBatch(R, ci, seed, workers, dur)
+		focus := []string{"mixed", "eventstream"}[(ci/2)%2]
+		R.Journal(ci, fmt.Sprintf("batch workers=%d dur=%v focus=%s", workers, dur, focus))
+		vfHammerBatch(R, ci, seed, workers, dur, focus)
 		R.Eval()
 		R.Flush()
 	}
